@@ -189,6 +189,21 @@ func (n *Net) NewLink(aNode, bNode string) *Link {
 
 func (n *Net) Links() []*Link { return n.links }
 
+// Forget drops a link whose two ends are closed and drained from the net's
+// bookkeeping (scenarios with very many short connections would otherwise pay
+// for every old link at every scheduling step).
+func (n *Net) Forget(l *Link) {
+	s := n.S
+	s.Lock()
+	defer s.Unlock()
+	for i, x := range n.links {
+		if x == l {
+			n.links = append(n.links[:i], n.links[i+1:]...)
+			return
+		}
+	}
+}
+
 // CloseAll tears every connection down (end of run).
 func (n *Net) CloseAll() {
 	for _, l := range n.links {
